@@ -1,11 +1,13 @@
 package harness
 
 import (
+	"bytes"
 	"fmt"
 	"net"
 	"sync"
 
 	tq "github.com/facebookincubator/tacquito"
+	reallog "github.com/facebookincubator/tacquito/cmds/server/log"
 	"verif/harness/cfggen"
 	"verif/harness/model"
 	"verif/harness/refsrv"
@@ -52,7 +54,22 @@ type refEnv struct {
 	rec    *refsrv.Recorder
 	logger *refsrv.RecLogger
 	sink   *recSink
+	// realOut is what the reference logger wrote (refOpts.realLog)
+	realOut *lockedBuf
 }
+
+// lockedBuf is an io.Writer for the reference logger.
+type lockedBuf struct {
+	mu sync.Mutex
+	b  bytes.Buffer
+}
+
+func (l *lockedBuf) Write(p []byte) (int, error) {
+	l.mu.Lock()
+	defer l.mu.Unlock()
+	return l.b.Write(p)
+}
+func (l *lockedBuf) String() string { l.mu.Lock(); defer l.mu.Unlock(); return l.b.String() }
 
 type refOpts struct {
 	format   string
@@ -60,6 +77,9 @@ type refOpts struct {
 	recover  bool // swallow handler panics (recorded) instead of dying
 	quiet    bool // use the lock-free no-op logger
 	proxy    bool // run the server with SetUseProxy(true)
+	// realLog > 0: every log call is also passed to the reference logger (cmds/server/log) at this level,
+	// writing to refEnv.realOut
+	realLog int
 }
 
 func startRef(cfg cfggen.Config, o refOpts) (*refEnv, error) {
@@ -72,6 +92,10 @@ func startRef(cfg cfggen.Config, o refOpts) (*refEnv, error) {
 
 func startRefDoc(doc []byte, o refOpts) (*refEnv, error) {
 	e := &refEnv{rec: &refsrv.Recorder{Recover: o.recover}, logger: &refsrv.RecLogger{}, sink: &recSink{}}
+	if o.realLog != 0 {
+		e.realOut = &lockedBuf{}
+		e.logger.Tee = reallog.New(o.realLog, e.realOut)
+	}
 	var lg refsrv.Logger = e.logger
 	if o.quiet {
 		lg = refsrv.NopLogger{}
